@@ -18,6 +18,8 @@ F = [
  ("C05", "c05:entries-differ-surplus", "fixed", "3b8e2f8", "the record cursor was left where the typed RDATA parser stopped: surplus RDATA bytes were read as the next record (A record with RDLENGTH 19 whose surplus is a well-formed record; corpus/C05/surplus-*.json)"),
  ("C11", "c11:rcode-nibble-11..15-without-opt", "fixed", "587fcb6", "a received response code 11..15 (no OPT) shows as RCODE::Reserved, whose discriminant 17 was written back as 17 & 15 = 1 (FormatError) (input 0000000b0000000000000000; corpus/C11/reserved-rcode-becomes-formaterror.json)"),
  ("C12", "panic:fmt.rs:655:a formatting trait implementation returned an error when the underlying stream d", "fixed", "3b15704", "Display for Label returned Err and Display for CharacterString unwrapped on non-UTF-8 bytes: Debug / to_string of a parsed packet with such a label panicked (corpus/C12/non-utf8-label-debug.json)"),
+ ("C16", "c16:hash-instance", "fixed", "cfe8132", "InstanceInformation::hash fed its HashSets to the hasher in iteration order: equal values (same name, addresses, ports) hashed differently (corpus/C16/instance-hash-order.json)"),
+ ("C19", "c19:long-attributes", "fixed", "c0749fa", "TXT::long_attributes compared `c as u8` with ';' / '=': U+013B and U+013D (and any char congruent mod 256) were taken for separators (input \"\u013b\"; corpus/C19/lookalike-semicolon.json)"),
  ("C01", "panic:simple-dns/src/dns/rdata/a.rs:22", "fixed", "80de3fc", "every typed RDATA parser and CharacterString::parse sliced without bounds checks (and the character-string bound was off by one): RDLENGTH shorter than the fixed fields, or an inner length overrunning RDLENGTH, panicked (corpus/C01/panic_simple_dns_src_dns_rdata_*.json, corpus/C10/*-overrun.json)"),
 ]
 out = {"_comment": "Genuine defects of balliegojr/simple-dns found by the checks. status=known: not repaired; keyed by the violation signature; reported as KNOWN-FINDING and tolerated so the search continues behind it. status=fixed: repaired by the named 'fix:' commit in /repo; suppresses nothing.",
